@@ -4,3 +4,7 @@ import "testing"
 
 func TestC03Rapid(t *testing.T) { C03Prem.RunRapid(t) }
 func TestC03Scope(t *testing.T) { runScopes(t, C03Scope, c03Scopes(envInt("VERIF_DEPTH", 0))) }
+
+func TestC03Large(t *testing.T) {
+	C03Large.RunCases(t, "constructed 20,000 / 40,000 / 65,535-byte messages (long body, many headers, one long folded header) cut at ~100 positions (around 2^8..2^15, every 997 bytes, the last three)", true, enumLargePrem)
+}
